@@ -488,6 +488,45 @@ def run_sinks(acc):
         acc.case(case, True, viols, key=harness.chash([kind, value]))
 
 
+def run_stale_sinks(acc):
+    """"every other process is unchanged": the process of the object has ended and its pid belongs to somebody else - no
+    setting form (incl. the cpu_affinity([]) alias in its three spellings) may reach that other process."""
+    from vlib import histories, psu
+    ps = psu.load()
+    forms = [("nice", lambda p: p.nice(5)), ("ionice", lambda p: p.ionice(2, 3)), ("rlimit", lambda p: p.rlimit(7, (5, 9))),
+             ("affinity", lambda p: p.cpu_affinity([0, 1])), ("affinity_dup", lambda p: p.cpu_affinity([1, 1])),
+             ("affinity_all_list", lambda p: p.cpu_affinity([])), ("affinity_all_tuple", lambda p: p.cpu_affinity(())),
+             ("affinity_all_set", lambda p: p.cpu_affinity(set()))]
+    for name, fn in forms:
+        for seen_gone in (False, True):
+            for zombie in (False, True):
+                w = histories.World(ps)
+                viols = []
+                with w:
+                    w.apply(("spawn", 7, False))
+                    w.apply(("spawn", 8, False))
+                    w.apply(("new", 7))
+                    p = w.handles[0].obj
+                    w.apply(("vanish", 7))
+                    if seen_gone:
+                        w.apply(("isrun", 0))
+                    w.apply(("spawn", 7, zombie))
+                    ev0 = len(w.vk.events)
+                    try:
+                        fn(p)
+                        exc = None
+                    except Exception as e:  # noqa: BLE001
+                        exc = type(e).__name__
+                    evs = [list(e) for e in w.vk.events[ev0:] if not (e[0] == "kill" and e[2] == 0)]
+                    acc.count("stale_object_setters_checked")
+                    if evs:
+                        viols.append((f"sink_other_process_changed:{name.split('_')[0]}:pid_recycled",
+                                      f"{name} through an object whose process ended (pid now owned by another process) -> {evs}"))
+                    if exc != "NoSuchProcess":
+                        viols.append((f"sink_stale_object_setter_not_NoSuchProcess:{name.split('_')[0]}", f"{name} -> {exc}"))
+                acc.case(dict(kind="sink_stale", form=name, seen_gone=seen_gone, zombie=zombie), True, viols)
+
+
 def run_refusals(acc):
     """The kernel may refuse a request psutil finds nothing wrong with (a cpuset, a per-CPU kernel thread, a limit above the
     hard limit): the refusal must come out as an exception - a call that returns normally claims the value was set."""
@@ -640,6 +679,7 @@ def run_shard(shard):
         run_rlimit_names(acc)
     elif k == "sinks":
         run_sinks(acc)
+        run_stale_sinks(acc)
         run_refusals(acc)
         acc.exhaustive = True
     elif k == "bigcpu":
@@ -649,6 +689,8 @@ def run_shard(shard):
             kind = case.get("kind", "")
             if kind in ("sink_refused_affinity", "live_refused_affinity"):
                 run_refusals(acc)
+            elif kind == "sink_stale":
+                run_stale_sinks(acc)
             elif kind.startswith("sink_"):
                 run_sinks(acc)
             elif kind.startswith("nice"):
